@@ -6,6 +6,9 @@ CLAIMED = {
              text="Decides five structural necessary conditions of the --listen access rules on every path of handleHttpRequest/startHttpServer and on the wiring in terminal.go (auth before both request effects; remote bind needs key; GET handler writes no Terminal state; key only via len/ConstantTimeCompare; POST body shares parser and interpreter with --bind). It does not decide the totality of the hand-written HTTP scanner.",
              note="Trusts go/types + go/ssa (x/tools v0.29.0) and the VTA call graph; intraprocedural path conditions; memory facts (field loads) are matched structurally."),
 }
+CLAIMED["C08"] = dict(technique="alias-snapshot analysis + mailbox-drain census with path conditions + flag-aware must-pass-through + read-only use census of cached slices",
+  text="Decides seven structural necessary conditions of convergence: change detection never compares the query buffer with an alias of itself across the action-list interpreter; mailbox drains select messages independently of map iteration order; nth/denylist changes invalidate both caches and bump the revision before the next search; cancelled scans are never published; token cache reads are revision-checked; cached result lists are never written in place; cached mergers are reused only with the same final flag. Does not decide convergence itself.",
+  note="Trusts go/ssa; closure variables resolved through MakeClosure bindings; in-place writers of the query buffer are enumerated from the code on every run.")
 NA = {
 }
 ALL = ["C%02d" % i for i in range(1, 21)]
